@@ -480,6 +480,12 @@ def hrp_of(sc):
     return bytes.fromhex(sc.env.get('hrp', '')).decode('latin1')
 
 
+def sender32(addr):
+    """Go: sender := make([]byte, 32); copy(sender[12:], addr) - the property quantifies over 20-byte accounts"""
+    a = addr[:20]
+    return bytes(12) + a + bytes(20 - len(a))
+
+
 def pad32(b):
     return bytes(32 - len(b)) + b if len(b) <= 32 else b[-32:]
 
@@ -559,7 +565,7 @@ def mon_c05(scripts, stats):
                 b = burn_body(sent[0]['body'])
                 if b is None or str(b['amount']) != amt:
                     yield sc, n, 'C05: emitted burn message states amount %s, %s was burnt' % (b and b['amount'], amt)
-                if b is not None and dep is not None and b['sender'] != pad32(dep):
+                if b is not None and dep is not None and b['sender'] != sender32(dep):
                     yield sc, n, 'C05: emitted burn message names depositor %s, the submitter is %s' % (b['sender'].hex(), dep.hex())
             if dep is not None:
                 key = (dep.hex() + '/' + hexstr(tok)).encode().hex()
@@ -577,15 +583,15 @@ def mon_c05(scripts, stats):
             for m in sent:
                 if m is None:
                     continue
-                if ty in ('SendMessage', 'SendMessageWithCaller') and sub is not None and m['sender'] != pad32(sub):
+                if ty in ('SendMessage', 'SendMessageWithCaller') and sub is not None and m['sender'] != sender32(sub):
                     yield sc, n, 'C05: %s emitted a message whose sender %s is not the submitter' % (ty, m['sender'].hex())
-                if ty == 'ReplaceMessage' and sub is not None and m['sender'] != pad32(sub):
+                if ty == 'ReplaceMessage' and sub is not None and m['sender'] != sender32(sub):
                     yield sc, n, 'C05: replace-message emitted a message whose sender %s is not the submitter' % m['sender'].hex()
                 if ty == 'ReplaceDepositForBurn':
                     o = msg_header(a['orig'])
                     ob = burn_body(o['body']) if o else None
                     nb = burn_body(m['body'])
-                    if m['sender'] != modpad or ob is None or nb is None or nb['amount'] != ob['amount'] or (sub is not None and ob['sender'] != pad32(sub)):
+                    if m['sender'] != modpad or ob is None or nb is None or nb['amount'] != ob['amount'] or (sub is not None and ob['sender'] != sender32(sub)):
                         yield sc, n, 'C05: replace-deposit-for-burn emitted a module message not backed by the submitter\'s own original burn'
             if not ok and sent:
                 yield sc, n, 'C05: failed %s emitted a message' % ty
@@ -611,7 +617,7 @@ def mon_c06(scripts, stats):
                 want.update(dst=int(a['dest']), recipient=bytes.fromhex(a['recipient']), body=bytes.fromhex(a['body']),
                             caller=bytes.fromhex(a['caller']) if ty == 'SendMessageWithCaller' else bytes(32))
                 if sub is not None:
-                    want['sender'] = pad32(sub)
+                    want['sender'] = sender32(sub)
             else:
                 msgr = [x for x in s0['messenger'] if x['domain'] == a['dest']]
                 want.update(dst=int(a['dest']), sender=pad32(module_of(sc)), recipient=bytes.fromhex(msgr[0]['addr']) if msgr else None,
@@ -624,7 +630,7 @@ def mon_c06(scripts, stats):
                 tokhash = keccak256(hexstr(a['burn_token']).lower().encode('latin1'))
                 wb = {'version': 0, 'token': tokhash, 'recipient': bytes.fromhex(a['mint_recipient']), 'amount': int(a['amount'])}
                 if sub is not None:
-                    wb['sender'] = pad32(sub)
+                    wb['sender'] = sender32(sub)
                 if b is None or [k for k, v in wb.items() if b[k] != v]:
                     yield sc, n, 'C06: deposit emitted burn message %s, requested %s' % (b and {k: (v.hex() if isinstance(v, bytes) else v) for k, v in b.items()}, {k: (v.hex() if isinstance(v, bytes) else v) for k, v in wb.items()})
                 ev = events(obs, 'DepositForBurn')
@@ -672,7 +678,7 @@ def mon_c09(scripts, stats):
         if m['caller'] != bytes.fromhex(a['new_caller']):
             yield sc, n, 'C09: replacement does not carry the requested destination caller'
         if ty == 'ReplaceMessage':
-            if sub is not None and o['sender'] != pad32(sub):
+            if sub is not None and o['sender'] != sender32(sub):
                 yield sc, n, 'C09: replace-message succeeded for an original whose sender is not the submitter'
             if m['body'] != bytes.fromhex(a['new_body']):
                 yield sc, n, 'C09: replacement does not carry the requested body'
@@ -683,7 +689,7 @@ def mon_c09(scripts, stats):
                 continue
             if o['sender'] != pad32(module_of(sc)):
                 yield sc, n, 'C09: replace-deposit-for-burn succeeded for an original not sent by the module'
-            if sub is not None and ob['sender'] != pad32(sub):
+            if sub is not None and ob['sender'] != sender32(sub):
                 yield sc, n, 'C09: replace-deposit-for-burn succeeded for a depositor who is not the submitter'
             kept = [k for k in ('version', 'token', 'amount', 'sender') if nb[k] != ob[k]]
             if kept:
